@@ -499,6 +499,41 @@ def kill_equivalence(res, rep):
             res.violation(f"killed-worker-looks-different-from-popen:{kind}", f"rep {rep}: {kind} vs popen: {short(diff, 400)}")
 
 
+def slow_exit_equivalence(res, rep):
+    """terminate() without a timeout waits for the process itself, not just for its connection: a worker that takes a while
+    to leave (exit handler, non-daemon thread) is gone when terminate() returns - direct or proxied"""
+    import execnet
+
+    for kind in ("popen", "via"):
+        for how in ("atexit", "nondaemon_thread"):
+            group = execnet.Group()
+            pid = None
+            try:
+                if kind == "via":
+                    group.makegateway("popen//id=m")
+                gw = group.makegateway("popen" + ("//via=m" if kind == "via" else ""))
+                body = ("import atexit, os, time\natexit.register(lambda: time.sleep(2.0))\nchannel.send(os.getpid())\n" if how == "atexit" else
+                        "import os, threading, time\nthreading.Thread(target=lambda: time.sleep(2.0)).start()\nchannel.send(os.getpid())\n")
+                pid = gw.remote_exec(body).receive(20)
+                t0 = time.monotonic()
+                group.terminate()
+                took = time.monotonic() - t0
+                alive = procs.alive(pid)
+                res.count("control_checks")
+                res.case(core.h64("slow-exit", kind, how))
+                if alive:
+                    res.violation(f"terminate-returned-before-process-exit:{kind}", f"rep {rep}: worker with a 2 s {how} still alive when terminate() returned after {took:.2f}s")
+            except BaseException as e:  # noqa
+                res.violation(f"control-run-raised:slow_exit:{type(e).__name__}", f"{kind}/{how}: {str(e)[-200:]}")
+            finally:
+                if pid and procs.alive(pid):
+                    procs.wait_gone([pid], 6.0)
+                try:
+                    group.terminate(2.0)
+                except BaseException:  # noqa
+                    pass
+
+
 def run_control(spec):
     """wait / kill / close_write reach the proxied process"""
     import execnet
@@ -508,6 +543,7 @@ def run_control(spec):
         if rep % 5 == 0:
             chain_terminate(res, rep)
             kill_equivalence(res, rep)
+            slow_exit_equivalence(res, rep)
         for action in ("kill", "exit_wait", "close_write", "terminate_hanging", "terminate_hanging_mto"):
             group = execnet.Group()
             try:
